@@ -25,7 +25,7 @@ PLAN = dict(
                 "runs under a watchdog. Exploration level: longer and deeper inputs are sampled, not enumerated."),
     level_note=NOTE_BASE,
     require=[("short-exhaustive", "accepted"), ("short-exhaustive", "rejected-order"), ("short-exhaustive", "rejected-nonshortest"),
-             ("short-exhaustive", "rejected-malformed"), ("short-exhaustive", "panic-as-reject"),
+             ("short-exhaustive", "rejected-malformed"),
              ("generated", "accepted"), ("generated", "rejected-order"), ("generated", "rejected-nonshortest"), ("generated", "rejected-malformed"),
              ("generated", "corr-setarg-still-valid"), ("encoder-output", "accepted"), ("boundary", "accepted")],
 )
